@@ -52,6 +52,8 @@ DEFAULT_PROFILE = dict(
   max_nodes=40,
   anim_counts=(0, 0, 0, 1, 2, 3),
   initial_counts=(0, 0, 1, 2, 4),
+  dense=True,           # containers usually have children and content is usually associated with a region
+  anim_on_offset=True,  # animation steps on elements / regions whose own begin is non-zero (ttconv finding I-1)
 )
 
 
@@ -268,19 +270,26 @@ def _node(draw, ctx, kind, depth, regions, in_ruby_annot=False, plain_self=False
   if not plain:
     n["begin"] = draw(opt_time(prof))
     n["end"] = draw(opt_time(prof))
-    if regions and draw(st.floats(0, 1)) < prof["region_refs"]:
+    p_ref = prof["region_refs"]
+    if not assoc and prof["dense"]:
+      p_ref = max(p_ref, {"body": 0.3, "div": 0.5, "p": 0.6}.get(kind, p_ref))
+    if regions and draw(st.integers(0, 99)) < 100 * p_ref:
       n["region"] = draw(st.sampled_from(regions))
   if kind == "ruby" and regions and not assoc and n["region"] is None and not prof["ruby_timed"]:
     n["region"] = draw(st.sampled_from(regions))   # an unassociated ruby loses its annotation text: ttconv finding I-3
   assoc = assoc or n["region"] is not None
   n["styles"] = _styles(draw, ctx)
   n["anims"] = _anims(draw, ctx)
+  if n["anims"] and not prof["anim_on_offset"]:
+    n["begin"] = None
   if plain:
     n["styles"].pop("Display", None)
     n["anims"] = [a for a in n["anims"] if a[0] != "Display"]
   budget_ok = ctx.nodes < prof["max_nodes"]
 
   def kids(choices, lo, hi):
+    if lo == 0 and prof["dense"] and budget_ok and draw(st.integers(0, 9)) < 8:
+      lo = 1
     k = draw(st.integers(lo, hi if budget_ok else lo))
     for _ in range(k):
       ck = draw(st.sampled_from(choices))
@@ -341,6 +350,8 @@ def docspecs(draw, prof=None):
     if prof["timed_regions"]:
       r["begin"] = draw(opt_time(prof))
       r["end"] = draw(opt_time(prof))
+      if r["anims"] and not prof["anim_on_offset"]:
+        r["begin"] = None
     d["regions"].append(r)
   if draw(st.floats(0, 1)) < prof["body_prob"]:
     d["body"] = _node(draw, ctx, "body", 0, [r["id"] for r in d["regions"]])
